@@ -40,10 +40,17 @@ def run_one(pid, args, seed):
             import json
             with open(args.replay) as f:
                 only = json.load(f)['finding']['key']
+        errors = []
         for rule in meta['rules']:
             name = getattr(rule, 'NAME', rule.__name__)
             result.rules_run.append(name)
-            rule(program, result)
+            try:
+                rule(program, result)
+            except frontend.AnalysisError as e:
+                # one rule out of reach must not hide what the other
+                # rules found
+                errors.append(f'{name}: {e}')
+        result.counters['analysis_errors'] = errors
         if only is not None:
             result.findings = [
                 f for f in result.findings if f.key == only]
@@ -56,6 +63,10 @@ def run_one(pid, args, seed):
             st_ok, summary = selftest.run(pid, args.repo)
             result.counters['selftest'] = summary
         rc = report.finish(result, program, seed)
+        for e in errors:
+            print(f'ANALYSIS-ERROR property={pid}: {e}')
+        if errors and rc == 0:
+            return 2
         if not st_ok:
             print(f'SELFTEST-FAIL property={pid}')
             return 2
